@@ -7,8 +7,10 @@ CONSTANTS Vals, Keys, MaxIdx
 
 VARIABLES lst,      \* Seq(Val)
           dk, dv,   \* dictionary: keys in insertion order, values (parallel sequences)
-          rep       \* reply of the last operation
-cvars == <<lst, dk, dv, rep>>
+          rep,      \* reply of the last operation
+          kept      \* the last NEW collection handed out by 逆序 / 合并 / 所有索引 / 所有值: a value of its own -
+                    \* no later operation on the receiver may change it (result independence)
+cvars == <<lst, dk, dv, rep, kept>>
 
 Last(s) == s[Len(s)]
 Front(s) == SubSeq(s, 1, Len(s) - 1)
@@ -25,50 +27,51 @@ Null == [k |-> "null"]
 ErrIndex == [k |-> "index"]
 ErrKey == [k |-> "key"]
 
-CInit == lst = <<>> /\ dk = <<>> /\ dv = <<>> /\ rep = [k |-> "init"]
+CInit == lst = <<>> /\ dk = <<>> /\ dv = <<>> /\ rep = [k |-> "init"] /\ kept = <<>>
 DU == UNCHANGED <<dk, dv>>
 LU == UNCHANGED lst
+KU == UNCHANGED kept
 
 (* ------------------------------ list ------------------------------ *)
 LGet(i) == /\ rep' = IF i >= 1 /\ i <= Len(lst) THEN Ok(lst[i]) ELSE ErrIndex
-           /\ LU /\ DU
+           /\ LU /\ DU /\ KU
 LSet(i, v) == /\ IF i >= 1 /\ i <= Len(lst) THEN lst' = [lst EXCEPT ![i] = v] /\ rep' = Ok(v)
                  ELSE LU /\ rep' = ErrIndex                   \* out of range: index error, unchanged
-              /\ DU
-LLen == rep' = Ok(Len(lst)) /\ LU /\ DU
-LFirst == rep' = (IF lst = <<>> THEN Null ELSE Ok(lst[1])) /\ LU /\ DU
-LLast == rep' = (IF lst = <<>> THEN Null ELSE Ok(Last(lst))) /\ LU /\ DU
-LRev == rep' = OkSeq(Rev(lst)) /\ LU /\ DU                     \* a new list; the receiver is unchanged
-LPrepend(v) == lst' = <<v>> \o lst /\ rep' = OkSeq(lst') /\ DU
-LAppend(v) == lst' = Append(lst, v) /\ rep' = OkSeq(lst') /\ DU
+              /\ DU /\ KU
+LLen == rep' = Ok(Len(lst)) /\ LU /\ DU /\ KU
+LFirst == rep' = (IF lst = <<>> THEN Null ELSE Ok(lst[1])) /\ LU /\ DU /\ KU
+LLast == rep' = (IF lst = <<>> THEN Null ELSE Ok(Last(lst))) /\ LU /\ DU /\ KU
+LRev == rep' = OkSeq(Rev(lst)) /\ kept' = Rev(lst) /\ LU /\ DU                     \* a new list; the receiver is unchanged
+LPrepend(v) == lst' = <<v>> \o lst /\ rep' = OkSeq(lst') /\ DU /\ KU
+LAppend(v) == lst' = Append(lst, v) /\ rep' = OkSeq(lst') /\ DU /\ KU
 LShift == /\ IF lst = <<>> THEN LU /\ rep' = Null ELSE lst' = Tail(lst) /\ rep' = Ok(lst[1])
-          /\ DU
+          /\ DU /\ KU
 LPop == /\ IF lst = <<>> THEN LU /\ rep' = Null ELSE lst' = Front(lst) /\ rep' = Ok(Last(lst))
-        /\ DU
+        /\ DU /\ KU
 LSwap(i, j) == /\ IF i >= 1 /\ i <= Len(lst) /\ j >= 1 /\ j <= Len(lst)
                   THEN lst' = [lst EXCEPT ![i] = lst[j], ![j] = lst[i]] /\ rep' = OkSeq(lst')
                   ELSE LU /\ rep' = ErrIndex
-               /\ DU
-LMerge(o) == rep' = OkSeq(lst \o o) /\ LU /\ DU                \* "forms a new list"
-LContains(v) == rep' = OkBool(IndexOf(lst, v, 1) > 0) /\ LU /\ DU
+               /\ DU /\ KU
+LMerge(o) == rep' = OkSeq(lst \o o) /\ kept' = lst \o o /\ LU /\ DU                \* "forms a new list"
+LContains(v) == rep' = OkBool(IndexOf(lst, v, 1) > 0) /\ LU /\ DU /\ KU
 \* first occurrence, 1-based position p (0 = absent); the binding maps it to the implementation's base
-LFind(v) == rep' = [k |-> "find", p |-> IndexOf(lst, v, 1)] /\ LU /\ DU
+LFind(v) == rep' = [k |-> "find", p |-> IndexOf(lst, v, 1)] /\ LU /\ DU /\ KU
 
 (* ------------------------------ dictionary ------------------------------ *)
 DPos(k) == IndexOf(dk, k, 1)
 DGet(k) == /\ rep' = IF DPos(k) > 0 THEN Ok(dv[DPos(k)]) ELSE ErrKey
-           /\ DU /\ LU
+           /\ DU /\ LU /\ KU
 DPut(k, v) == IF DPos(k) > 0 THEN dv' = [dv EXCEPT ![DPos(k)] = v] /\ UNCHANGED dk      \* overwrite keeps its place
               ELSE dk' = Append(dk, k) /\ dv' = Append(dv, v)                        \* a new key is appended
-DSet(k, v) == DPut(k, v) /\ rep' = Ok(v) /\ LU
-DRead(k) == rep' = (IF DPos(k) > 0 THEN Ok(dv[DPos(k)]) ELSE Null) /\ DU /\ LU
-DWrite(k, v) == DPut(k, v) /\ rep' = Ok(v) /\ LU
+DSet(k, v) == DPut(k, v) /\ rep' = Ok(v) /\ LU /\ KU
+DRead(k) == rep' = (IF DPos(k) > 0 THEN Ok(dv[DPos(k)]) ELSE Null) /\ DU /\ LU /\ KU
+DWrite(k, v) == DPut(k, v) /\ rep' = Ok(v) /\ LU /\ KU
 DRemove(k) == /\ IF DPos(k) > 0 THEN dk' = Without(dk, DPos(k)) /\ dv' = Without(dv, DPos(k)) /\ rep' = Ok(dv[DPos(k)])
                  ELSE DU /\ rep' = Null
-              /\ LU
-DLen == rep' = Ok(Len(dk)) /\ DU /\ LU
-DKeys == rep' = OkSeq(dk) /\ DU /\ LU
-DVals == rep' = OkSeq(dv) /\ DU /\ LU
+              /\ LU /\ KU
+DLen == rep' = Ok(Len(dk)) /\ DU /\ LU /\ KU
+DKeys == rep' = OkSeq(dk) /\ kept' = dk /\ DU /\ LU
+DVals == rep' = OkSeq(dv) /\ kept' = dv /\ DU /\ LU
 
 (* ------------------------------ properties ------------------------------ *)
 DictWF == /\ Len(dk) = Len(dv)
